@@ -27,7 +27,7 @@ def plan(tier, seed):
     i = 0
     pick = lambda xs: xs[int(rng.integers(len(xs)))]
     for kind in KINDS:
-        for r in range(n):
+        for r in range(n if kind != 'gcacgmm' else 2 * n):
             K = int(rng.integers(2, 5)) if kind in ('cacgmm',) or r % 5 else 1
             if kind == 'cacgmm':
                 K = max(2, K)
@@ -46,7 +46,7 @@ def plan(tier, seed):
                 o['wca'] = pick(scen.WCA['plain_lead'] + [-2] * 0)
             else:
                 o['wca'] = pick(scen.WCA['plain_nolead'])
-            o['saliency'] = pick(['none', 'pos', 'pos', 'int'])
+            o['saliency'] = pick(['none', 'pos', 'wide', 'wide', 'int'])
             o['saliency_slice_scale'] = bool(rng.integers(0, 2))
             if kind in ('cacgmm', 'gcacgmm'):
                 o['covariance_norm'] = pick(['eigenvalue', 'trace', False])
@@ -57,6 +57,8 @@ def plan(tier, seed):
                 if kind == 'gmm' and rng.uniform() < 0.1:
                     o['fixed_covariance'] = True
             iters = (8 if r % 3 else 15) if tier == 'quick' else int(pick([10, 20, 50]))
+            if kind == 'gcacgmm' and tier == 'quick':
+                iters = 15 if r % 3 else 25
             cases.append(dict(kind=kind, cls='gauss', K=K, N=N, D=D, lead=lead, spread=float(pick([0.5, 1.0, 1.5, 3.0])), init=pick(['dirichlet:1', 'dirichlet:10', 'blur:0.5', 'dirichlet:0.3']),
                               iters=iters, opts=o, rs=[seed, 2, i]))
             i += 1
